@@ -11,11 +11,12 @@ cp /repo/src/contracts_verif.go "$wt/src/contracts_verif.go"
 git -C "$wt" apply "$pf" 2>/dev/null || { echo "$(basename $pf): PATCH-DOES-NOT-APPLY"; exit 1; }
 (cd "$wt" && go test -vet=off -count=1 -timeout 300s ./... >/dev/null 2>&1) && suite=pass || suite=FAIL
 alarms=""
+out=$(VERIF_REPO="$wt" GOVC_NO_WITNESS=1 /verif/bin/govc multi $props 2>&1)
 for p in $props; do
-  out=$(VERIF_REPO="$wt" GOVC_NO_WITNESS=1 /verif/bin/govc check $p 2>&1); rc=$?
-  if [ $rc != 0 ]; then
+  if printf '%s\n' "$out" | grep -q "^VIOLATION property=$p "; then
     alarms="$alarms $p"
-    printf '%s\n' "$out" | grep '^VIOLATION' | head -4 | sed "s|^|    $(basename $pf) $p: |" | cut -c1-260
+    printf '%s\n' "$out" | grep "^VIOLATION property=$p " | head -4 | sed "s|^|    $(basename $pf) $p: |" | cut -c1-260
   fi
 done
+if printf '%s\n' "$out" | grep -q "^ERROR"; then alarms="$alarms ENGINE-ERROR"; fi
 echo "$(basename $(dirname $pf))/$(basename $pf): suite=$suite alarms=[${alarms# }]"
